@@ -584,38 +584,10 @@ fn outline(formatted: &BTreeMap<String, String>) -> Outline {
     Outline { heads, refs }
 }
 
-fn c18(tier: Tier, seed: u64, case: u64) -> CaseReport {
-    let mut rep = CaseReport::new(case);
-    let mut rng = Rng::for_case(seed, "c18", case);
-    let last = tier.pick(1500, 40000) - 1;
-    if case + 2 >= last {
-        // pinned reproducers: a note that block-references itself / two notes referencing each other /
-        // a note included only from above the first heading of an unreferenced note
-        let (id, texts): (&str, BTreeMap<String, String>) = if case == last {
-            ("self-reference", [("n1".to_string(), "# Alone\n\n[x](n1)\n\n## Sub\n".to_string())].into_iter().collect())
-        } else if case + 1 == last {
-            ("reference-cycle", [("n1".to_string(), "# One\n\n[x](n2)\n".to_string()), ("n2".to_string(), "# Two\n\n[y](n1)\n".to_string())].into_iter().collect())
-        } else {
-            ("doc-level-reference", [("n1".to_string(), "[x](n2)\n\n# One\n".to_string()), ("n2".to_string(), "# Two\n".to_string())].into_iter().collect())
-        };
-        rep.count("events", 1);
-        rep.count("pinned_reproducers", 1);
-        if let Ok(paths) = mon::catch(|| {
-            let g = Graph::import(&state(&texts), MarkdownOptions::default());
-            let mut ends: Vec<u64> = g.paths().iter().map(|p| p.target()).collect();
-            ends.sort();
-            ends.dedup();
-            ends.len()
-        }) {
-            let heads: usize = texts.values().map(|t| mdscan::scan(t).atoms.iter().filter(|a| matches!(a.kind, AKind::Heading(_))).count()).sum();
-            if paths < heads {
-                rep.violate("heading-missing-from-paths", &format!("pinned:{}", id), format!("{} headings in the library, {} paths listed", heads, paths), json!({"library": texts}));
-            }
-        }
-        return rep;
-    }
-    let big = rng.chance(1, 25);
-    let n = if big { rng.range(8, 14) } else { rng.range(1, tier.pick(5, 8)) };
+/// outline library: heading trees + an acyclic block-reference graph (forward references, diamonds, document-level
+/// references in included notes, dangling targets) + inline links that raise ranks
+pub fn gen_outline_lib(rng: &mut Rng, n: usize, big: bool) -> (BTreeMap<String, String>, Vec<String>) {
+    let mut rng = rng;
     let keys = libgen::gen_keys(&mut rng, n, true);
     let mut words = crate::gen::Words::new("");
     let mut texts: BTreeMap<String, String> = BTreeMap::new();
@@ -682,6 +654,42 @@ fn c18(tier: Tier, seed: u64, case: u64) -> CaseReport {
         }
         texts.insert(k.clone(), t);
     }
+    (texts, shape)
+}
+
+fn c18(tier: Tier, seed: u64, case: u64) -> CaseReport {
+    let mut rep = CaseReport::new(case);
+    let mut rng = Rng::for_case(seed, "c18", case);
+    let last = tier.pick(1500, 40000) - 1;
+    if case + 2 >= last {
+        // pinned reproducers: a note that block-references itself / two notes referencing each other /
+        // a note included only from above the first heading of an unreferenced note
+        let (id, texts): (&str, BTreeMap<String, String>) = if case == last {
+            ("self-reference", [("n1".to_string(), "# Alone\n\n[x](n1)\n\n## Sub\n".to_string())].into_iter().collect())
+        } else if case + 1 == last {
+            ("reference-cycle", [("n1".to_string(), "# One\n\n[x](n2)\n".to_string()), ("n2".to_string(), "# Two\n\n[y](n1)\n".to_string())].into_iter().collect())
+        } else {
+            ("doc-level-reference", [("n1".to_string(), "[x](n2)\n\n# One\n".to_string()), ("n2".to_string(), "# Two\n".to_string())].into_iter().collect())
+        };
+        rep.count("events", 1);
+        rep.count("pinned_reproducers", 1);
+        if let Ok(paths) = mon::catch(|| {
+            let g = Graph::import(&state(&texts), MarkdownOptions::default());
+            let mut ends: Vec<u64> = g.paths().iter().map(|p| p.target()).collect();
+            ends.sort();
+            ends.dedup();
+            ends.len()
+        }) {
+            let heads: usize = texts.values().map(|t| mdscan::scan(t).atoms.iter().filter(|a| matches!(a.kind, AKind::Heading(_))).count()).sum();
+            if paths < heads {
+                rep.violate("heading-missing-from-paths", &format!("pinned:{}", id), format!("{} headings in the library, {} paths listed", heads, paths), json!({"library": texts}));
+            }
+        }
+        return rep;
+    }
+    let big = rng.chance(1, 25);
+    let n = if big { rng.range(8, 14) } else { rng.range(1, tier.pick(5, 8)) };
+    let (texts, shape) = gen_outline_lib(&mut rng, n, big);
     rep.shape(fnv(&shape.join(",")));
     let replay = json!({"library": texts});
     let r = mon::catch(|| {
